@@ -76,7 +76,7 @@ def outcome_class(res):
 class C14(Prop):
     id = "C14"
     module = "C14"
-    theorems = ["C14_empty", "C14_classify", "C14_number_roundtrip", "C14_table_ok"]
+    theorems = ["C14_table_ok", "C14_empty", "C14_empty_bytes", "C14_classify", "C14_number", "C14_build_needs_number", "C14_supported_are_features"]
     table_obligations = ["messages_ok"]
     rule = ("DECODE for every message number 0..4095 with payload shapes {2 bytes, 8 bytes, 200 zero bytes, 200 0xFF bytes, random} plus payloads of 0 and 1 bytes; "
             "ENCODE of a generated message of every typed variant (number on the wire); non-trivial = distinct frames with a payload of >= 2 bytes")
@@ -207,7 +207,7 @@ def failing_messages(ctx):
 class C12(Prop):
     id = "C12"
     module = "C12"
-    theorems = ["C12_history", "C12_build_from_inv", "C12_inv_reachable"]
+    theorems = ["C12_history", "C12_history_fold", "C12_inv_reachable"]
     rule = ("BUILDSEQ: histories of 0..6 builds with one builder drawn from a pool (every message type, frames near the 1029-byte limit, messages failing at the first "
             "field / part-way / late), every result compared with a fresh builder's; non-trivial = distinct histories of length >= 2")
 
@@ -972,7 +972,7 @@ STANDARD = {
 class C18(Prop):
     id = "C18"
     module = "C18"
-    theorems = ["C18_tables_ok", "C18_cmp_total_order", "C18_cmp_recognised", "C18_cmp_unrecognised_last", "C18_standard_positions", "C18_is_valid_iff"]
+    theorems = ["C18_tables_ok", "C18_bijection", "C18_is_valid_iff", "C18_cmp_total_order", "C18_cmp_recognised", "C18_cmp_unrecognised_last", "C18_standard_positions"]
     table_obligations = ["sig_tables_ok"]
     rule = ("SIGID for 7 constellations x bands 0..255 x attributes U+0000..U+00FF (exhaustive) plus sampled astral attributes; SIGSIG for every id 0..255; SIGCMP over all pairs of "
             "recognised descriptors and sampled pairs/triples with unrecognised ones; non-trivial = distinct queries on recognised descriptors or ids")
